@@ -7,6 +7,7 @@ import (
 	"io"
 	"net"
 	"net/http"
+	"runtime"
 	"strings"
 	"sync"
 	"time"
@@ -129,8 +130,199 @@ func makeBody(tp *simkit.Tape, kind string, n int) []byte {
 
 var c16Algos = []string{"", "gzip", "zlib", "deflate", "zstd", "snappy", "lz4"}
 
+// runC16Overlap: several requests through ONE server and ONE client: 0-4 earlier requests (whose handler may close the
+// body itself, as the OTLP receiver does), then three requests that overlap in time - each handler reads the first part
+// of its body, waits until the other handler has done the same, then reads the rest. Whatever the middleware pools or
+// shares between requests (encoders, decoders, buffers), every handler must read exactly the bytes its own client call
+// was given.
+func runC16Overlap(r *simkit.Run) {
+	tp := r.Tape
+	algo := c16Algos[tp.Draw(len(c16Algos))]
+	closes := tp.Chance(1, 2)
+	nPre := tp.Draw(5)
+	lens := []int{tp.Range(1500, 6000), tp.Range(1500, 6000), tp.Range(1500, 6000)}
+	if tp.Chance(1, 2) {
+		lens[tp.Draw(3)] = []int{70000, 140000, 1100000}[tp.Draw(3)]
+	}
+	r.Sample = map[string]any{"mode": "overlap", "client_compression": algo, "handler_closes_body": closes, "earlier_requests": nPre, "body_lens": lens}
+	r.Logf("overlap algo=%q closes=%v earlier=%d lens=%v", algo, closes, nPre, lens)
+	r.Count("probe.overlapping_requests")
+	// Whatever earlier runs of this process left in sync.Pools of the middleware is dropped (two collections empty every
+	// sync.Pool): the run then depends only on its own requests and can be replayed in a fresh process.
+	runtime.GC()
+	runtime.GC()
+	type seen struct {
+		got []byte
+		err error
+	}
+	var mu sync.Mutex
+	reads := map[string]*seen{}
+	arrived := make(chan struct{}, 3)
+	release := make(chan struct{})
+	handler := http.HandlerFunc(func(w http.ResponseWriter, req *http.Request) {
+		id := req.Header.Get("X-Sim-Req")
+		var mine []byte
+		var myErr error
+		buf := make([]byte, 512)
+		barrier := id == "A" || id == "B" || id == "C"
+		for {
+			n, err := req.Body.Read(buf)
+			mine = append(mine, buf[:n]...)
+			if barrier && len(mine) >= 1024 {
+				barrier = false
+				arrived <- struct{}{}
+				select {
+				case <-release:
+				case <-time.After(3 * time.Second):
+				}
+			}
+			if err != nil {
+				if err != io.EOF {
+					myErr = err
+				}
+				break
+			}
+			if len(mine) > 4<<20 {
+				break
+			}
+		}
+		if closes {
+			_ = req.Body.Close()
+		}
+		mu.Lock()
+		reads[id] = &seen{got: mine, err: myErr}
+		mu.Unlock()
+		if myErr != nil {
+			http.Error(w, myErr.Error(), http.StatusBadRequest)
+			return
+		}
+		w.WriteHeader(http.StatusOK)
+	})
+	sc := confighttp.NewDefaultServerConfig()
+	port, _ := nextPortPair()
+	for i := 0; i < 200 && !portsFree(port); i++ {
+		port, _ = nextPortPair()
+	}
+	sc.Endpoint = fmt.Sprintf("127.0.0.1:%d", port)
+	sc.TLSSetting = nil
+	srv, err := sc.ToServer(context.Background(), componenttest.NewNopHost(), componenttest.NewNopTelemetrySettings(), handler)
+	if err != nil {
+		panic(err)
+	}
+	srv.SetKeepAlivesEnabled(false)
+	ln, err := sc.ToListener(context.Background())
+	if err != nil {
+		r.Count("probe.infra_socket_unavailable")
+		time.Sleep(200 * time.Millisecond)
+		return
+	}
+	done := make(chan struct{})
+	go func() { _ = srv.Serve(ln); close(done) }()
+	defer func() {
+		_ = srv.Close()
+		<-done
+	}()
+	cc := confighttp.NewDefaultClientConfig()
+	cc.Endpoint = "http://" + ln.Addr().String()
+	cc.Compression = configcompression.Type(algo)
+	cc.Timeout = 20 * time.Second
+	client, err := cc.ToClient(context.Background(), componenttest.NewNopHost(), componenttest.NewNopTelemetrySettings())
+	if err != nil {
+		panic(err)
+	}
+	defer client.CloseIdleConnections()
+	post := func(id string, body []byte) (int, error) {
+		req, err := http.NewRequest(http.MethodPost, cc.Endpoint+"/", bytes.NewReader(body))
+		if err != nil {
+			panic(err)
+		}
+		req.Header.Set("X-Sim-Req", id)
+		req.Header.Set("Content-Type", "application/octet-stream")
+		resp, err := client.Do(req)
+		if err != nil {
+			return 0, err
+		}
+		_, _ = io.Copy(io.Discard, resp.Body)
+		_ = resp.Body.Close()
+		return resp.StatusCode, nil
+	}
+	infra := func(err error) bool {
+		return err != nil && (strings.Contains(err.Error(), "cannot assign requested address") || strings.Contains(err.Error(), "address already in use"))
+	}
+	for i := 0; i < nPre; i++ {
+		if _, err := post(fmt.Sprint("pre", i), makeBody(tp, "text", tp.Range(1200, 5000))); infra(err) {
+			r.Count("probe.infra_socket_unavailable")
+			time.Sleep(200 * time.Millisecond)
+			return
+		}
+		simkit.Beat()
+	}
+	bodies := map[string][]byte{"A": makeBody(tp, "random", lens[0]), "B": makeBody(tp, "text", lens[1]), "C": makeBody(tp, "random", lens[2])}
+	twins := []string{"A", "B", "C"}
+	type res struct {
+		id     string
+		status int
+		err    error
+	}
+	out := make(chan res, 3)
+	for _, id := range twins {
+		id := id
+		go func() {
+			st, err := post(id, bodies[id])
+			out <- res{id, st, err}
+		}()
+	}
+	// both handlers in the middle of their bodies (or 3 s), then let them finish
+	for range twins {
+		select {
+		case <-arrived:
+		case <-time.After(3 * time.Second):
+		}
+	}
+	close(release)
+	results := map[string]res{}
+	for range twins {
+		x := <-out
+		results[x.id] = x
+		simkit.Beat()
+	}
+	_ = srv.Close()
+	<-done
+	r.Events += len(twins) + nPre
+	r.Nontrivial = true
+	for _, id := range twins {
+		x := results[id]
+		if infra(x.err) {
+			r.Count("probe.infra_socket_unavailable")
+			return
+		}
+		mu.Lock()
+		sn := reads[id]
+		mu.Unlock()
+		switch {
+		case x.err != nil:
+			r.Failf("content", "overlap/request-failed/"+algoName(algo), "request %s (%d bytes, %s) overlapping with another one failed: %v", id, len(bodies[id]), algoName(algo), sanitize(x.err, port))
+		case sn == nil:
+			r.Failf("content", "overlap/handler-not-run/"+algoName(algo), "request %s (%d bytes, %s) overlapping with another one did not reach the handler: status %d", id, len(bodies[id]), algoName(algo), x.status)
+		case sn.err != nil || !bytes.Equal(sn.got, bodies[id]):
+			whose := ""
+			for _, other := range twins {
+				if other != id && len(sn.got) > 0 && bytes.Contains(bodies[other], sn.got[len(sn.got)-min(len(sn.got), 64):]) {
+					whose = " (its last bytes are bytes of request " + other + ")"
+				}
+			}
+			r.Failf("content", "overlap/round-trip/"+algoName(algo), "overlapping requests: the handler of request %s read %d bytes (err=%v), its client was given %d bytes (%s)%s; status %d", id, len(sn.got), sn.err, len(bodies[id]), algoName(algo), whose, x.status)
+		}
+	}
+	r.State(fmt.Sprintf("overlap algo=%s closes=%v pre=%d", algo, closes, nPre), "request")
+}
+
 func runC16(r *simkit.Run) {
 	tp := r.Tape
+	if tp.Chance(1, 6) {
+		runC16Overlap(r)
+		return
+	}
 	cfg := c16Cfg{}
 	cfg.Algo = c16Algos[tp.Draw(len(c16Algos))]
 	switch cfg.Algo {
@@ -439,5 +631,5 @@ var HarnessC16 = simkit.Harness{
 	Prop: "C16", Name: "svc/c16", Run: runC16, NoBubble: true, StepTimeout: 60e9, RateLimit: 40,
 	Real: []string{"confighttp.ClientConfig.ToClient (compression round-tripper, every algorithm and level)", "confighttp.ServerConfig.ToServer (decompressor, max-body interceptors, enabled-decoder list)", "net/http client and server over kernel loopback TCP"},
 	Stub: []string{"listener wrapper owned by the simulator: the server's reads are cut into tape-drawn chunk sizes (1 B .. 64 KiB) and optionally fail after N bytes (never a sleep)", "innermost handler reading with a tape-drawn buffer size"},
-	Rule: "one run = one request: tape-drawn algorithm (none, gzip, zlib, deflate, zstd, snappy, lz4) and level, enabled-decoder list (default or custom), max_request_body_size (default, 1, 100, 1000, 4096, 65536, 70000), body (zeros / text / incompressible; empty, tiny, limit-1, limit, limit+1, codec block sizes, bombs of 2-8x the limit), server read chunk size, optional truncation of the stream, handler buffer size; runs outside the synctest bubble on real loopback sockets (real time, no virtual clock: the property does not depend on timing; one request at a time); distinct = distinct event-log hash; non-trivial = a compressed or truncated request",
+	Rule: "one run = (1 run in 6) overlap mode: 0-4 earlier requests, then two requests whose handlers are held in the middle of their bodies until both got there, through one server and one client, handler optionally closing the body itself, every handler must read its own bytes; otherwise one request: tape-drawn algorithm (none, gzip, zlib, deflate, zstd, snappy, lz4) and level, enabled-decoder list (default or custom), max_request_body_size (default, 1, 100, 1000, 4096, 65536, 70000), body (zeros / text / incompressible; empty, tiny, limit-1, limit, limit+1, codec block sizes, bombs of 2-8x the limit), server read chunk size, optional truncation of the stream, handler buffer size; runs outside the synctest bubble on real loopback sockets (real time, no virtual clock: the property does not depend on timing; one request at a time); distinct = distinct event-log hash; non-trivial = a compressed or truncated request",
 }
